@@ -229,6 +229,11 @@ func runC19(t *testing.T, sc c19Scenario) verdict {
 			} else if sc.Via == "exec" && (strings.TrimSpace(r.Out) != strings.TrimSpace(raw) || len(r.Out) > len(raw)) {
 				vs = append(vs, sim.Violation{Key: "output-not-trimmed-output", Msg: fmt.Sprintf("%s: raw %q returned %q", desc, clip(raw), clip(r.Out))})
 			}
+		case success && numericNeeded && sc.Mode == "ok-whitespace":
+			// a number wrapped in blank lines and spaces: rejecting it and reading it as 42 are both fine
+			if r.Err == nil && r.Out != "42" {
+				vs = append(vs, sim.Violation{Key: "garbage-accepted-as-number", Msg: fmt.Sprintf("%s: value %q", desc, r.Out)})
+			}
 		case success && numericNeeded:
 			// non-numeric output through a numeric backend: must be an error, never a number
 			if r.Err == nil {
